@@ -74,3 +74,10 @@ Example C03_set_monitor_hypothesis_satisfiable :
   phase_names_unique x_names_case = true /\
   map (fun s => let '(_, _, fph, _) := s in fph) (statuses (set_obs_s x_names_case (SetCorr.model_run x_names_case))) = [Some 2%N].
 Proof. exact m03_hypothesis_satisfiable. Qed.
+
+(** The delegated part of the C03 check (m03d = C15Corr.m_gate && C15Corr.m_relay: a write to phase j only after every
+    earlier delegated phase's phase object was seen Available for its generation in this pass; Available=True newly
+    reported only if every delegated phase's phase object, as last obtained, is) accepts every pass of the model. *)
+Theorem C03_set_monitor_delegated_sound : forall c : scase, m03d (set_obs_s c (SetCorr.model_run c)) = true.
+Proof. exact m03d_sound. Qed.
+Print Assumptions C03_set_monitor_delegated_sound.
